@@ -37,8 +37,8 @@ pub const C08_POS: usize = 16_000;
 pub const C09_POSITIONS: usize = 40; // x several hundred single-component variants
 pub const C09_COLL: u64 = 2_000_000;
 pub const C09_COLL_THOROUGH: u64 = 30_000_000;
-pub const C10_PROGRAMS: usize = 1_500;
-pub const C11_PROGRAMS: usize = 400;
+pub const C10_PROGRAMS: usize = 500;
+pub const C11_PROGRAMS: usize = 100;
 pub const C12_POSITIONS: usize = 350; // x all spellings of all moves
 pub const C12_MUTATED: usize = 8_000;
 pub const C12_REJECT_PER_POS: usize = 12;
